@@ -37,7 +37,8 @@ NOFAULT = {"parse": "ok", "n": 1, "tostan": "ok", "summary": "ok", "toc": "none"
 # a real epytext docstring whose ParsedEpytextDocstring.to_node() raises (an indented field before a top-level one leaves a
 # nested field list in the tree): realises the model's node = "once" on the real, unwrapped code
 ONCE_DOC = "Summary of %s here.\n  @note: x\n@note: y"
-CALL_TIMEOUT = 8           # seconds per entry-point call ("terminates"); a healthy call needs milliseconds
+CALL_TIMEOUT = 5           # seconds per entry-point call ("terminates"); a healthy call needs milliseconds
+HANG_BUDGET = 12           # once that many calls had to be interrupted in a phase, the rest of the phase is not run
 # the model describes the tree as it is: both known deviations present. VERIF_C08_MODEL=fixed describes the tree with
 # proposed_fixes/C08-*.diff applied (used to try the fixes; flip the defaults when they are committed)
 _FIXED = os.environ.get("VERIF_C08_MODEL") != "prefix"      # the two defects are repaired in /repo (dac0793, 1bcc148)
@@ -46,6 +47,10 @@ MODEL_CONSTANTS = "  PoisonedCache = %s\n  TocGuarded = %s\n" % (("FALSE", "TRUE
 
 class Injected(Exception):
     """The injected internal failure (deliberately not a ParseError)."""
+
+
+class HangAlarm(BaseException):
+    """Raised by the alarm; NOT an Exception, so that none of pydoctor's catch-alls can turn a hang into a fallback."""
 
 
 # ----------------------------------------------------------------------------------- scenario sources
@@ -89,7 +94,7 @@ class _Alarm:
 
     def __enter__(self):
         def handler(signum, frame):
-            raise TimeoutError("entry point did not return in time")
+            raise HangAlarm("entry point did not return in time")
         self.old = signal.signal(signal.SIGALRM, handler)
         signal.alarm(self.seconds)
 
@@ -391,14 +396,14 @@ def run_scenario(sc: Dict[str, Any]) -> Dict[str, Any]:
                 b = system.systemBuilder(system)
                 b.addModuleString(src, "m")
                 b.buildModules()
-        except Exception as e:
+        except (Exception, HangAlarm) as e:
             # extract_fields (module / class docstrings are parsed while the module is built) let something escape
             blank = {"pd": {o: "none" for o in OBJS}, "ps": {o: "none" for o in OBJS}, "perr": {o: False for o in OBJS},
                      "nrep": {o: 0 for o in OBJS}, "pz": {o: False for o in OBJS}}
             F0 = {o: (dict(sc["declared"][o]) if "declared" in sc else dict(inject[o]) if inject else dict(NOFAULT)) for o in OBJS}
             return {"F": F0, "inherit": inherit, "kindA": model_kind(kind), "frame_ok": True, "xhtml": None, "reports": [],
                     "names": names, "seen": seen,
-                    "ev": [{"o": "A", "op": "extract_fields", "r": "escaped", "st": blank, "full": False,
+                    "ev": [{"o": "A", "op": "extract_fields", "r": "timeout" if isinstance(e, HangAlarm) else "escaped", "st": blank, "full": False,
                             "exc": f"{type(e).__name__}: {e}"[:200]}]}
         obs = {o: system.allobjects[names[o]] for o in ("A", "B", "X")}
         if obs["A"].docstring != clean["A"] or (not inherit and obs["B"].docstring != clean["B"]):
@@ -443,7 +448,7 @@ def run_scenario(sc: Dict[str, Any]) -> Dict[str, Any]:
                 with contextlib.redirect_stdout(sink), contextlib.redirect_stderr(sink), _Alarm(CALL_TIMEOUT):
                     val = fn_of[op](ob)
                     html = "" if val is None else flatten(val)
-            except TimeoutError as e:        # the property: this never happens
+            except HangAlarm as e:           # the property: this never happens
                 r = "timeout"
                 exc = f"{type(e).__name__}: {e}"[:200]
                 val = None
@@ -749,7 +754,7 @@ def _slug_job(rec: Dict[str, Any]) -> Dict[str, Any]:
     try:
         with _Alarm(CALL_TIMEOUT):
             document = pd.to_node()
-    except TimeoutError:
+    except HangAlarm:
         return {"r": "timeout", "ids": [], "text": text}
     except Exception as e:
         return {"r": "escaped", "ids": [], "text": text, "exc": f"{type(e).__name__}: {e}"[:200]}
@@ -809,6 +814,20 @@ def slim(tr: Dict[str, Any]) -> Dict[str, Any]:
 def inject_for(F: Dict[str, Any]) -> Dict[str, Any]:
     """The faults to inject for an enumerated configuration: node = 'once' is realised by the docstring itself."""
     return {o: (dict(NOFAULT) if F[o]["node"] == "once" else dict(F[o])) for o in OBJS}
+
+
+def budgeted_map(fn: Any, jobs: List[Any], nproc: int, hung: Any) -> Tuple[List[Any], bool]:
+    """Pool map in slices; stops once HANG_BUDGET results report an interrupted call (each one costs CALL_TIMEOUT seconds)."""
+    out: List[Any] = []
+    hangs = 0
+    with ProcessPoolExecutor(max_workers=nproc) as ex:
+        for part in chunks(jobs, nproc * 24):
+            res = list(ex.map(fn, part, chunksize=8))
+            out += res
+            hangs += sum(1 for x in res if hung(x))
+            if hangs >= HANG_BUDGET:
+                return out, True
+    return out, False
 
 
 # ------------------------------------------------------------------------------------------------ check
@@ -918,8 +937,9 @@ def run(ctx: Ctx) -> int:
     srecs = list({json.dumps(x["doc"]): x for x in rs.printed}.values())
     if not srecs:
         raise MachineryError("Slug: TLC emitted no document")
-    with ProcessPoolExecutor(max_workers=nproc) as ex:
-        sres = list(ex.map(_slug_job, srecs, chunksize=16))
+    rng.shuffle(srecs)
+    sres, cut = budgeted_map(_slug_job, srecs, nproc, lambda x: x.get("r") == "timeout")
+    ctx.extra["slug_phase_cut_short_by_hangs"] = cut
     slug_mism = 0
     for rec, got in zip(srecs, sres):
         if "gen_error" in got:
@@ -964,8 +984,8 @@ def run(ctx: Ctx) -> int:
             fjobs.append({"fmt": fmt, "pt": bool((idx + fi) % 2), "kind": kind, "inherit": kind in ("method", "attribute"),
                           "docA": text, "docB": "Docstring of B, %s." % ("inherited" if kind in ("method", "attribute") else "own"),
                           "faults": None, "order": order, "family": fam})
-    with ProcessPoolExecutor(max_workers=nproc) as ex:
-        fres = list(ex.map(_fuzz_job, fjobs, chunksize=32))
+    fres, cut = budgeted_map(_fuzz_job, fjobs, nproc, lambda t: any(e["r"] == "timeout" for e in t.get("ev", [])))
+    ctx.extra["fuzz_phase_cut_short_by_hangs"] = cut
     skipped = 0
     outcome_count: Dict[str, int] = {}
     for tr in fres:
